@@ -80,8 +80,8 @@ CLAIMED = {
         "technique": TECH,
     },
     "C14": {
-        "level_text": "bounded symbolic verification of the real action selection of DQN (get_action/_get_action), CQN, RainbowDQN (numpy masked arg-max path), DDPG, TD3 (noise + clip), PPO (evaluation-mode clip / squashed policy) and DeterministicActor.rescale_action on real agents with stub policy networks: for all network outputs (ties included), masks with >= 1 legal action, epsilon in [0,1], every uniform draw in [0,1) and all exploration noise at batch<=2(3), actions<=3(4), 2-3 action dims with asymmetric per-dimension bounds: the action has the batch shape, is a valid index whose mask bit is 1, is a best allowed action when exploration is off (epsilon 0 / training False), lies inside [low,high] for the continuous learners and evaluation-mode PPO, and rescale_action is the affine image of the activation range",
-        "level_note": NOTE + "; that a real network's output activation delivers the assumed range, MADDPG/MATD3/IPPO/bandit action selection and MultiDiscrete/MultiBinary sampling (C16) are outside this check",
+        "level_text": "bounded symbolic verification of the real action selection of DQN (get_action/_get_action), CQN, RainbowDQN (numpy masked arg-max path), DDPG, TD3 (noise + clip), PPO (evaluation-mode clip / squashed policy), MADDPG / MATD3 (exploration clamp with per-dimension bounds, masked arg-max of discrete actions) and DeterministicActor.rescale_action on real agents with stub policy networks: for all network outputs (ties included), masks with >= 1 legal action, epsilon in [0,1], every uniform draw in [0,1) and all exploration noise at batch<=2(3), actions<=3(4), 2-3 action dims with asymmetric per-dimension bounds: the action has the batch shape, is a valid index whose mask bit is 1, is a best allowed action when exploration is off (epsilon 0 / training False), lies inside [low,high] for the continuous learners and evaluation-mode PPO, and rescale_action is the affine image of the activation range",
+        "level_note": NOTE + "; that a real network's output activation delivers the assumed range, IPPO action selection, env-defined actions, the bandits' masked arg-max (C19) and MultiDiscrete/MultiBinary sampling (C16) are outside this check",
         "technique": TECH,
     },
     "C15": {
@@ -95,8 +95,8 @@ CLAIMED = {
         "technique": TECH + "; torch.distributions abstracted by uninterpreted functions (a proof under the abstraction is sound, counterexamples are replayed on the real distributions)",
     },
     "C19": {
-        "level_text": "bounded symbolic verification of the real NeuralUCB.get_action / NeuralTS.get_action (ONE decision from an ARBITRARY symmetric stored matrix: inductive step) and init_params, with a stub actor whose per-arm backward() deposits symbolic gradient features: for all stored matrices, features, network outputs, gamma, masks (and Thompson samples) at arms<=3, output-layer parameters d<=2(3): the arm returned is legal and maximises the index (UCB: mu + gamma*sqrt(g^T S g); TS: a sample with mean mu and std gamma*sqrt(g^T S g)) among legal arms, the stored matrix afterwards satisfies the inverse-free Sherman-Morrison identity S' + S' v (v^T S) = S for the feature v of the arm RETURNED (<=> S'^-1 = S^-1 + v v^T, i.e. the matrix stays the inverse of lambda*I + sum of outer products), symmetry is preserved; init_params gives lambda*I of the size of the real output layer's parameter count",
-        "level_note": NOTE + "; sqrt uninterpreted (sqrt(x)>=0, sqrt(x)^2=x); that the deposited features are the true gradients (autograd), float32 drift, positive definiteness for d>2 and _reinit_bandit_grads after mutation are outside",
+        "level_text": "bounded symbolic verification of the real NeuralUCB.get_action / NeuralTS.get_action (ONE decision from an ARBITRARY symmetric stored matrix: inductive step) and init_params, with a stub actor whose per-arm backward() deposits symbolic gradient features: for all stored matrices, features, network outputs, gamma, masks (and Thompson samples) at arms<=3, output-layer parameters d<=2(3): the arm returned is legal and maximises the index (UCB: mu + gamma*sqrt(g^T S g); TS: a sample with mean mu and std gamma*sqrt(g^T S g)) among legal arms, the stored matrix afterwards satisfies the inverse-free Sherman-Morrison identity S' + S' v (v^T S) = S for the feature v of the arm RETURNED (<=> S'^-1 = S^-1 + v v^T, i.e. the matrix stays the inverse of lambda*I + sum of outer products), symmetry is preserved; init_params gives lambda*I of the size of the real output layer's parameter count; Mutations._reinit_bandit_grads after the output layer changed size (real MLP / Linear of 1-4 units, 1-2 arms) gives a matrix of the new size that is the old one on the kept coordinates and lambda*I, uncoupled, on the new ones",
+        "level_note": NOTE + "; sqrt uninterpreted (sqrt(x)>=0, sqrt(x)^2=x); that the deposited features are the true gradients (autograd), float32 drift, positive definiteness for d>2 is outside",
         "technique": TECH,
     },
     "C17": {
